@@ -383,6 +383,11 @@ def _tamper_wire(ctx, case):
             ctx.count(k, kind="tamper-wire-other-exception")
             ctx.violation("tamper-wire-other-exception", f"{type(e).__name__}: {e} (bit {bit} of byte {pos})", case, {"pos": pos, "bit": bit})
             continue
+        if framing and bi % 2 and nrep["n"] >= 2 and [bytes(g) for g in got] == [frame]:
+            # only the first reply was altered, in the bytes a framer uses to find packets: it was never recognised as a packet,
+            # the request was retransmitted and the intact second reply is what came back
+            ctx.count(k, kind="tamper-wire-unrecognised-then-intact-retry")
+            continue
         ctx.count(k, kind="tamper-wire-accepted")
         ctx.violation("tamper-wire-accepted", f"LAN.send returned frames for an altered response (bit {bit} of byte {pos})", case,
                       {"pos": pos, "bit": bit, "got": [bytes(g) for g in got]})
